@@ -74,7 +74,10 @@ def nontrivial(res, *key):
 
 def violation(res, kind, detail, case, attributed=None, cap=40, info=None):
     """Record a violation.  `attributed` is the known-finding mechanism key or None."""
-    if len(res["violations"]) < cap:
+    # payloads are kept for the first `cap` violations of each class (attributed to a known finding / not attributed): a flood of
+    # known findings must never crowd out the replay payload of a new violation
+    kept = sum(1 for v in res["violations"] if v.get("case") is not None and bool(v.get("attributed")) == bool(attributed))
+    if kept < cap:
         res["violations"].append({"kind": kind, "detail": detail, "case": case, "attributed": attributed, "info": info})
     else:
         # keep counting so that the parent still fails, but do not keep the payload
@@ -332,6 +335,17 @@ def conclude(prop, tier, seed, meta, results, dead, wall, nshards, write_evidenc
         if len(lines) < 25:
             lines.append(f"VIOLATION property={prop} replay={path}  # {v['kind']}: {(v.get('detail') or '')[:160]}")
 
+    if unattributed and not lines:
+        # every unattributed violation lost its payload (cannot happen with the per-class cap in `violation`, kept as a guard): the
+        # verdict is still a refutation and must carry its VIOLATION line
+        v = unattributed[0]
+        os.makedirs(rdir, exist_ok=True)
+        payload = {"property": prop, "tier": tier, "seed": seed, "repo_head": head, "repo_dirty": dirty, **v, "note": "payload not kept; re-run the check with this seed and tier"}
+        path = os.path.join(rdir, "no-payload-%s-%d.json" % (tier, seed))
+        with open(path, "w") as f:
+            json.dump(payload, f, indent=1, default=str)
+        lines.append(f"VIOLATION property={prop} replay={path}  # {v['kind']}: {(v.get('detail') or '')[:160]}")
+
     floors = meta["FLOORS"].get(tier, {})
     missed = []
     for name, minimum in floors.items():
@@ -410,8 +424,9 @@ def do_replay(prop, path):
     env = child_env()
     code = (
         "import json,sys,importlib;m=importlib.import_module('vf.checks.%s');"
-        "p=json.load(open(sys.argv[1]));vs=m.replay(p['case']);"
-        "att=getattr(m,'attribute',None);"
+        "p=json.load(open(sys.argv[1]));"
+        "vs=m.replay(p['case']) if p.get('case') is not None else [{'kind':p.get('kind'),'detail':'recorded without payload: '+str(p.get('detail'))}];"
+        "att=getattr(m,'attribute',None) if p.get('case') is not None else None;"
         "out=[{'kind':v.get('kind'),'detail':str(v.get('detail'))[:400],'attributed':(att(v) if att else None)} for v in vs];"
         "print(json.dumps(out,default=str,indent=1))" % prop
     )
